@@ -24,7 +24,7 @@ Pepo12 == G("pepo12", "pepo", <<3, 2>>,       Chain(2))
 Gen4   == G("gen4",   "gen",  <<2, 3, 2, 2>>, TriTail)
 
 GeomsQuick    == <<Deep(Mps3, 2), Mpsc3, Deep(Mpo2, 2), Peps22, Pepo12, Gen4>>
-GeomsThorough == <<Deep(Mps3, 3), Mps4, Mpsc3, Mpsc4, Deep(Mpo2, 3), Mpo3, Peps22, Pepo12, Gen4>>
+GeomsThorough == <<Deep(Mps3, 3), Mps4, Mpsc3, Mpsc4, Mpo2, Mpo3, Peps22, Pepo12, Gen4>>
 GeomsSim      == <<Mps3, Mps4, Mpsc3, Mpsc4, Mpo2, Mpo3, Peps22, Peps23, Pepo12, Pepo22, Gen4>>
 Gids13 == {1, 3}
 Gids123 == {1, 2, 3}
